@@ -199,6 +199,8 @@ PROPS["C14"] = dict(
     level_note="Trusted: TLC; the harness's creation of sparse files / hard links / chown and its reading back of inode numbers. TLC integers are 32 bit: "
                "sizes are k*unit+d symbolically or below 2^31 bytes; operands at 2^63-1, 2^63, 2^64-1 stand for 'larger than anything'. Numerals of "
                "2^64 and above are left to C11. The time tests' operands are judged in C15.",
+    # the same laws for all operands and all sizes: TLAPS (SMT back end), see spec/proofs/NumericLaws.tla
+    proofs=[dict(module="proofs/NumericLaws.tla")],
     mc=[dict(module="mc/MC_Num.tla", cfg=dict(quick="mc/MC_Num_quick.cfg", thorough="mc/MC_Num_thorough.cfg"), workers=4)],
     record=dict(quick=400, thorough=8000),
     selftest=dict(quick=40, thorough=200),
